@@ -587,3 +587,37 @@ pub fn k_label() -> Class {
     let binary = vec![u2(|a, c| Some(Then(a, c))), u2(|a, c| Some(Or(a, c)))];
     Class { name: "Klabel", leaves, unary, binary, ternary: vec![] }
 }
+
+/// Focused totality class (C20): wrappers that unwrap "the error a failed parser must have left"
+/// (map_err, labelled, memoized, recover_with in its three strategies) around each other and
+/// around every kind of failing site.
+pub fn k_tot() -> Class {
+    let leaves = vec![Just('a'), Any, End, Custom(1, false), EmptyChoice];
+    let unary = vec![
+        u1(|a| Some(MapErr(a))),
+        u1(|a| Some(Labelled(a, true))),
+        u1(|a| Some(Memo(a))),
+        u1(|a| Some(TryMap(a))),
+        u1(|a| Some(Filter(a))),
+        u1(|a| Some(OrNot(a))),
+        u1(|a| if nn(&a) { Some(Rep(a, Bounds::new(0, Some(1)), Sink::Exactly(2))) } else { None }),
+    ];
+    let binary = vec![
+        u2(|a, f| Some(Recover(a, f))),
+        u2(|a, u| Some(SkipUntil(a, b(Any), u))),
+        u2(|a, u| Some(Retry(a, b(Any), u))),
+        u2(|a, c| Some(Then(a, c))),
+        u2(|a, c| Some(Or(a, c))),
+    ];
+    Class { name: "Ktot", leaves, unary, binary, ternary: vec![] }
+}
+
+/// Focused memoization class (C11): multi-token leaves (so that a memoized parser can fail after
+/// consuming), repetition and choice (so that the same memoized parser is re-entered at other
+/// positions), few node kinds so that every subset of nodes of 5-node trees can be memoized.
+pub fn k_memo() -> Class {
+    let leaves = vec![Just('a'), JustSeq('a', 'b'), Any];
+    let unary = vec![u1(|a| Some(OrNot(a))), u1(|a| if nn(&a) { Some(Rep(a, Bounds::STAR, Sink::Vec)) } else { None }), u1(|a| Some(TryMap(a)))];
+    let binary = vec![u2(|a, c| Some(Then(a, c))), u2(|a, c| Some(Or(a, c)))];
+    Class { name: "Kmemo", leaves, unary, binary, ternary: vec![] }
+}
